@@ -36,3 +36,43 @@ Qed.
 (* _extract_bytes calls string_to_bytes with the default unit system of the source *)
 Lemma gen_default_unit_system_equiv : gen_default_unit_system = lit "IEC".
 Proof. reflexivity. Qed.
+
+(* ---------- QemuImgInfo: the translated methods (Gen/C10_QemuCode.v) against the model ---------- *)
+Require Import OV.Gen.C10_QemuCode.
+
+Theorem gen_canonicalize_equiv : forall field, gen_canonicalize field = canonicalize field.
+Proof. intros. reflexivity. Qed.
+
+Theorem gen_extract_bytes_equiv : forall details, gen_extract_bytes details = extract_bytes details.
+Proof.
+  intros d. unfold gen_extract_bytes, extract_bytes, search_groups.
+  destruct (re_search size_re d) as [[[a e] g]|]; [|reflexivity].
+  cbv zeta. destruct (group_text d g 1) as [g1|]; [|reflexivity].
+  unfold has_e. change (lit "e") with [101%N].
+  unfold float_of_optstr, int_of_optstr, str_of_optstr, bind.
+  change (lit "B") with [66%N].
+  destruct (occursb [101%N] (py_lower g1)).
+  - destruct (py_float_of_str g1) as [x|]; [|reflexivity].
+    destruct (truthy (group_text d g 3)); [reflexivity|].
+    destruct (group_text d g 2) as [[|c r]|]; cbn [truthy negb]; try reflexivity.
+    destruct ((zlen (c :: r) =? 1) && negb (beq (c :: r) [66%N])); reflexivity.
+  - destruct (truthy (group_text d g 3)); [reflexivity|].
+    destruct (group_text d g 2) as [[|c r]|]; cbn [truthy negb]; try reflexivity.
+    destruct ((zlen (c :: r) =? 1) && negb (beq (c :: r) [66%N])); reflexivity.
+Qed.
+
+Theorem gen_size_details_equiv : forall root_cmd root_details,
+  gen_size_details root_cmd root_details = size_details root_cmd root_details.
+Proof.
+  intros c d. unfold gen_size_details, size_details, optstr_in.
+  match goal with |- context [beq c ?l] => destruct (beq c l) eqn:E end.
+  { apply beq_eq in E. subst c. reflexivity. }
+  clear E.
+  match goal with |- (if existsb (beq c) ?l then _ else _) = _ => change l with size_fields end.
+  destruct (existsb (beq c) size_fields).
+  - f_equal.
+    match goal with |- (if existsb (beq d) ?l then _ else _) = _ => change l with zero_words end.
+    destruct (existsb (beq d) zero_words); [reflexivity|].
+    rewrite gen_extract_bytes_equiv. destruct (extract_bytes d); reflexivity.
+  - repeat match goal with |- context [if ?b then None else _] => destruct b end; reflexivity.
+Qed.
